@@ -109,7 +109,7 @@ func isMutex(t types.Type) bool {
 		return false
 	}
 	p := n.Obj().Pkg().Path()
-	return (p == "sync" || p == "verif/simrt") && (n.Obj().Name() == "RWMutex" || n.Obj().Name() == "Mutex")
+	return (p == "sync" || p == "verif/simrt") && (n.Obj().Name() == "RWMutex" || n.Obj().Name() == "Mutex" || n.Obj().Name() == "Once")
 }
 
 // closeShared adds every module struct type reachable through fields.
@@ -537,7 +537,7 @@ func (r *rewriter) rewriteFile() {
 			switch pn.Imported().Path() {
 			case "sync":
 				switch x.Sel.Name {
-				case "RWMutex", "Mutex":
+				case "RWMutex", "Mutex", "Once":
 					id.Name = "simrt"
 					r.usedRT = true
 					stats["sync"]++
